@@ -86,6 +86,48 @@ fn accept_once(f_cur: f64, f_cand: f64, t: f64, seed: u64) -> Result<u32, (Strin
     Ok(s.0)
 }
 
+/// States the acceptance step cannot work on (a current or candidate population that is empty): it refuses - and a refused step leaves the populations as they were, so that nothing is lost.
+fn malformed(rep: &Reporter) {
+    // (populations with more than one individual are not probed: the step then works on the first ones and its own
+    // post-condition objects afterwards - outside what the property speaks about)
+    let shapes: [(usize, usize); 3] = [(1, 0), (0, 1), (0, 0)];
+    for (k, &(n_cur, n_cand)) in shapes.iter().enumerate() {
+        for &t in &[0.0f64, 1.0, 1e6] {
+            rep.case();
+            rep.nontrivial(hash_of(&("malformed", k, t.to_bits())));
+            let comp = ExponentialAnnealingAcceptance::new::<TagP>(t);
+            let mut st = State::<TagP>::new();
+            let mut pops = Populations::<TagP>::new();
+            pops.push(vec![tagged(9, Some(5.5))]);
+            pops.push((0..n_cur).map(|i| tagged(1 + i as u32, Some(2.0 + i as f64))).collect());
+            pops.push((0..n_cand).map(|i| tagged(20 + i as u32, Some(1.0 + i as f64))).collect());
+            st.insert(pops);
+            st.insert(Random::new(k as u64));
+            let shape = |st: &State<TagP>| -> Vec<Vec<(u32, f64)>> {
+                let pops = st.populations();
+                let mut v = Vec::new();
+                let mut d = 0;
+                while let Some(p) = pops.try_peek(d) {
+                    v.push(p.iter().map(view).collect());
+                    d += 1;
+                }
+                v
+            };
+            let before = shape(&st);
+            let r = catch(|| {
+                comp.init(&TagP, &mut st).map_err(|e| e.to_string())?;
+                comp.execute(&TagP, &mut st).map_err(|e| format!("{e:#}"))
+            });
+            let refused = !matches!(r, Ok(Ok(())));
+            let after = shape(&st);
+            if refused && after != before {
+                rep.violation("acceptance:refused-step-changes-or-loses-populations", json!({"current_population_size": n_cur, "candidate_population_size": n_cand, "temperature": t, "result": format!("{r:?}"), "stack_before (top first)": format!("{before:?}"), "stack_after": format!("{after:?}")}));
+            }
+            rep.count(if refused { "malformed_states_refused" } else { "malformed_states_accepted" }, 1);
+        }
+    }
+}
+
 fn acceptance_grid(rep: &Reporter) {
     let objs = [-3.0, 0.0, -0.0, 1e-20, 1.0, 1.0 + 1e-9, 2.0, 50.0, f64::MAX, f64::INFINITY];
     // incl. temperatures the cooling schedule reaches late in a run (alpha = 0 gives exactly 0)
@@ -255,6 +297,7 @@ fn main() {
     let rep = Reporter::from_args("C17");
     rep.rule("prepared three-population states [untouched, [current], [candidate]] of tagged individuals over (f_current, f_candidate) in {-3,0,1e-20,1,1+1e-9,2,50,MAX,+inf}^2 x T in {0,1e-300,1e-24,1e-12,1e-3,.1,1,10,1e6,1e12,1e300} x N seeds: survivor and stack shape per run; candidate <= current must be accepted for every seed; a worse candidate must be accepted with a frequency inside the Hoeffding band around exp(-delta/T) (never for p<1e-12, always for p>1-1e-12); GeometricCooling over alpha x T0 for >=1200 consecutive executions, bit-exact T*alpha each time, alpha outside [0,1) rejected; plus every acceptance and cooling step of the two SA templates observed at the hook. distinct_nontrivial = distinct (f_current, f_candidate, T) cells + cooling cells + template runs");
     rep.assume("candidate = top population (the perturbed copy), current = the one below, as in the SA template; frequency band for a false-alarm probability of 1e-10 per cell");
+    malformed(&rep);
     acceptance_grid(&rep);
     cooling(&rep);
     let cases: Vec<_> = templates::cases(rep.quick(), rep.seed, rep.tier.pick(4, 400)).into_iter().filter(|c| matches!(c.tmpl, Tmpl::SaReal | Tmpl::SaPerm)).collect();
